@@ -289,12 +289,26 @@ json.dump(res, open(sys.argv[2], "w"))
 """
 
 
+TOKENIZER_KEYWORDS = ["_Bool", "_Complex", "char", "const", "double", "enum", "float", "int", "long", "short", "signed",
+                      "struct", "union", "unsigned", "void", "volatile"]
+_C_RESERVED = set(TOKENIZER_KEYWORDS) | {"do", "if", "for", "int", "auto", "case", "else", "goto", "enum", "long"}
+KEYWORD_NEIGHBOURS = sorted({w for k in TOKENIZER_KEYWORDS
+                             for w in (k[:-1], k[:-2], k[:-3], k + "_", k + "s", k + "0")
+                             if len(w) >= 3 and w not in _C_RESERVED and not w.startswith("_")
+                             and w not in ("con", "sig", "uni")})
+
+
 def build_case(ctx, idx, nnames, dollar):
     """generate declarations + both generated sources (done in-process: needs cffi)"""
     import cffi
     warnings.simplefilter("ignore")
     rng = ctx.rng
     names = gen_names.ident_set(rng, nnames, maxlen=rng.choice([5, 9, 16]), dollar=dollar)
+    # identifiers next to the keywords of the type-string tokenizer (parse_c_type.c:next_token): proper prefixes
+    # and one-character extensions of every keyword must be looked up as names, never taken for the keyword
+    kw = KEYWORD_NEIGHBOURS[:]
+    rng.shuffle(kw)
+    names = names + [k for k in kw[:max(4, nnames // 4)] if k not in names]
     d = gen_names.Decls(rng, names)
     case = {"idx": idx, "decls": d, "cdef": d.cdef, "csource": d.csource}
     base = os.path.join(ctx.tmp, "m%d" % idx)
